@@ -330,6 +330,155 @@ def replay_writer(lead, inputs, obs):
     return p.returncode == 10, (p.stdout + p.stderr)[-2500:], _drv[0] + ' --skip-known'
 
 
+# ---------------------------------------------------------------- WriteSuffixes (one suffix) and the value visitors
+SUF_ACCEPTOR = '''
+/* the suffix being written (arbitrary but fixed) */
+int g_skind; long g_namelen, g_tabsize, g_tabnl; int g_nnz; _Bool g_isreal;
+int g_w; long g_wi; double g_wr;            /* witness: the g_w-th non-zero value is (index g_wi, value g_wr) */
+static const char g_name[4], g_table[4];
+static int suf_kind(void) { return g_skind; }
+static const char *suf_name(void) { return g_name; }
+static const char *suf_table(void) { return g_table; }
+#define strlen(p) ((size_t)g_namelen)                 /* std::strlen(name): the name is g_namelen characters long */
+static size_t vp_table_size(void) { return (size_t)g_tabsize; }
+static long vp_table_newlines(void) { return g_tabnl; }   /* std::count(table.begin(), table.end(), newline) */
+enum { U_HEADER, U_NAME, U_TABLE, U_VALUES, U_DONE };
+int g_sec, g_idx, g_written;
+static void vp_line(void) {
+  switch (g_sec) {
+  case U_HEADER:
+    EXPECT(g_ntok == 10 && IS_LIT(0, L_SUFFIX) && IS_LIT(2, L_SP) && IS_LIT(4, L_SP) && IS_LIT(6, L_SP) && IS_LIT(8, L_SP) &&
+           g_line[1].kind == T_INT && g_line[3].kind == T_INT && g_line[5].kind == T_INT && g_line[7].kind == T_INT && g_line[9].kind == T_INT,
+           "a suffix starts with the line 'suffix <kind> <n> <namelen> <tablen> <tablines>'");
+    EXPECT(g_line[1].i == (g_skind & (SUFFIX_KIND_MASK | suf_FLOAT | suf_IODECL)), "the kind written is kind & (kind mask | FLOAT | IODECL): item class and value type survive, 0..15");
+    EXPECT(g_line[3].i == g_nnz, "the count written is the number of non-zero values, which is the number of value lines that follow");
+    EXPECT(g_line[5].i == g_namelen + 1, "namelen counts the name and its terminator");
+    EXPECT(g_line[7].i == (g_tabsize ? g_tabsize + 1 : 0), "tablen is 0 without a table, else the table length and its terminator");
+    EXPECT(g_line[9].i == (g_tabsize ? g_tabnl + 1 : 0), "tablines is 0 without a table, else the number of lines of the table");
+    g_sec = U_NAME; break;
+  case U_NAME:
+    EXPECT(g_ntok == 1 && g_line[0].kind == T_STR && g_line[0].s == g_name, "the suffix name follows on its own line");
+    g_sec = g_tabsize ? U_TABLE : U_VALUES; g_idx = 0; break;
+  case U_TABLE:
+    EXPECT(g_ntok == 1 && g_line[0].kind == T_STR && g_line[0].s == g_table, "the table follows the name");
+    g_sec = U_VALUES; g_idx = 0; break;
+  case U_VALUES:
+    EXPECT(g_ntok == 3 && g_line[0].kind == T_INT && IS_LIT(1, L_SP) && (g_isreal ? g_line[2].kind == T_REAL16 : g_line[2].kind == T_INT),
+           "a value line is '<index> <value>'; a real value is written with 16 significant digits");
+    EXPECT(g_idx < g_nnz, "not more value lines than announced");
+    if (g_idx == g_w) { EXPECT(g_line[0].i == g_wi, "value lines carry the item index of the value");
+      if (g_isreal) EXPECT(g_line[2].r == g_wr, "value lines carry the value"); else EXPECT(g_line[2].i == (long)g_wr, "value lines carry the value"); }
+    g_idx++; break;
+  default: EXPECT(0, "no line is written here");
+  }
+}
+/* Suffix::VisitValues(visitor): calls visitor.Visit(i, value) for the non-zero values in index order (C05.VisitValues.* prove this for the
+   real BasicSuffix<T>::VisitValues); here: g_nnz visits, the g_w-th being (g_wi, g_wr) */
+static void VisitValues_counter(int *counter) { *counter = g_nnz; }        /* SuffixValueCounter::Visit: ++num_values_ per visit (C05.SuffixValueCounter) */
+'''
+
+SUF_KINDS = [(r'i->kind\(\) & mask', 'VP_INT'), (r'num_values|tablen|tabNlines', 'VP_INT'), (r'strlen\(name\) \+ 1', 'VP_INT'), (r'name|table', 'VP_STR'),
+             (r'index', 'VP_INT'), (r'value', 'VP_VALUE')]
+
+
+def suffix_block_fn():
+    return PrintFn(SOLH, r'if \(\(i->kind\(\) & suf::OUTPUT\) == 0\)\s*continue;', 'void WriteOneSuffix(void)', block_end=r'i->VisitValues\(writer\);',
+                   contract='__CPROVER_requires(g_sec == U_HEADER && g_ntok == 0 && g_nnz >= 0 && g_namelen >= 1 && g_namelen < (1 << 20) && g_tabsize >= 0 && g_tabsize < (1 << 24) && '
+                            'g_tabnl >= 0 && g_tabnl <= g_tabsize && g_written == 0) '
+                            '__CPROVER_ensures((g_skind & suf_OUTPUT) == 0 ? (g_sec == U_HEADER && g_written == 0) : (g_sec == U_VALUES && g_written == 1)) '
+                            '__CPROVER_ensures(g_ntok == 0) '
+                            '__CPROVER_assigns(g_sec, g_idx, g_ntok, g_written, __CPROVER_object_whole(g_line))',
+                   subst=[(r'continue;', 'return;', 1), (r'SuffixValueCounter counter;', 'int counter = 0;', 1), (r'i->VisitValues\(counter\)', 'VisitValues_counter(&counter)', 1),
+                          (r'counter\.num_values\(\)', 'counter', 1), (r'i->name\(\)', 'suf_name()', 1), (r'const auto& table = i->table\(\);', 'const char *table = suf_table();', 1),
+                          (r'table\.size\(\)', 'vp_table_size()', -1), (r'table\.empty\(\)', '(vp_table_size() == 0)', 1),
+                          (r'std::count\(table\.begin\(\), table\.end\(\), \'\\n\'\)', 'vp_table_newlines()', 1),
+                          (r'i->kind\(\)', 'suf_kind()', -1), (r'SuffixValueWriter writer\(file\);', '', 1), (r'i->VisitValues\(writer\)', 'VisitValues_writer()', 1),
+                          (r'internal::SUFFIX_KIND_MASK', 'SUFFIX_KIND_MASK', 1)],
+                   kinds=[(r'suf_kind\(\) & mask', 'VP_INT'), (r'num_values|tablen|tabNlines', 'VP_INT'), (r'name|table', 'VP_STR'), (r'[\w\s:+\-*()]*', 'VP_INT')],
+                   min_prints=2, label='mp::internal::WriteSuffixes [body of the loop over the suffixes of one kind]')
+
+
+def h_suffix_block():
+    parts = [PRE, consts(), SUF_ACCEPTOR, '''
+static void VisitValues_writer(void) { EXPECT(g_sec == U_VALUES && g_idx == 0 && g_ntok == 0, "the value lines follow the header, the name and the table"); g_written++; g_idx = g_nnz; }
+''', suffix_block_fn(), '''
+void harness(void) {
+  vp_one = 1;
+  g_skind = nondet_int(); g_namelen = nondet_long(); g_tabsize = nondet_long(); g_tabnl = nondet_long(); g_nnz = nondet_int(); g_isreal = nondet_bool();
+  g_sec = U_HEADER; g_ntok = 0; g_idx = 0; g_written = 0;
+  WriteOneSuffix();
+  VP_REACH("normal return");
+}
+''']
+    return Harness('C05.WriteSuffixes.block', 'C05', parts, enforce='WriteOneSuffix', timeout=300, replay=replay_writer,
+                   stubs=['Suffix accessors kind()/name()/table() (arbitrary but fixed suffix)', 'Suffix::VisitValues (visits the non-zero values in order: C05.VisitValues.*)',
+                          'std::strlen / std::string::size / std::count on the name and the table (ghost lengths)'],
+                   assumptions=['the iteration over the suffix set (SuffixMap iterator) is not modelled: every suffix is written by this same block'],
+                   note='block extracted from the loop body of internal::WriteSuffixes; `continue` becomes `return`')
+
+
+def h_value_writer(real):
+    T = 'double' if real else 'int'
+    anchor = r'void Visit\(int index, double value\)' if real else r'void Visit\(int index, T value\) \{ file_\.print'
+    parts = [PRE, consts(), SUF_ACCEPTOR, '#define VP_VALUE(e) %s\n#define VP_VALUE_16(e) VP_REAL16(e)\n' % ('VP_REAL(e)' if real else 'VP_INT(e)'),
+             PrintFn(SOLH, anchor, 'void SuffixValueWriter_Visit(int index, %s value)' % T,
+                     contract='__CPROVER_requires(g_sec == U_VALUES && g_ntok == 0 && g_idx >= 0 && g_idx < g_nnz && g_idx == g_w && g_wi == index && g_wr == value && g_isreal == %d) '
+                              '__CPROVER_ensures(g_sec == U_VALUES && g_ntok == 0 && g_idx == __CPROVER_old(g_idx) + 1) '
+                              '__CPROVER_assigns(g_idx, g_ntok, __CPROVER_object_whole(g_line))' % (1 if real else 0),
+                     kinds=[(r'index', 'VP_INT'), (r'value', 'VP_VALUE')], min_prints=1,
+                     label='mp::internal::SuffixValueWriter::Visit(int, %s)' % ('double' if real else 'T'), inst='T=%s' % T, nmatches=1), '''
+void harness(void) {
+  vp_one = 1; g_nnz = nondet_int(); g_isreal = nondet_bool(); g_idx = nondet_int(); g_w = nondet_int(); g_wi = nondet_int(); %s v = %s; g_wr = v;
+  g_sec = U_VALUES; g_ntok = 0;
+  SuffixValueWriter_Visit((int)g_wi, v);
+  VP_REACH("normal return");
+}
+''' % (T, 'nondet_double()' if real else 'nondet_int()')]
+    return Harness('C05.SuffixValueWriter.Visit.' + T, 'C05', parts, enforce='SuffixValueWriter_Visit', timeout=300, replay=replay_writer,
+                   stubs=['fmt::BufferedFile::print (R22)'], note='one value line: "<index> <value>", a real value with {:.16}')
+
+
+VISIT = '''
+#include "mp_shim.h"
+int vp_one;
+int g_n; int g_w; %(T)s g_vw;            /* arbitrary witness index and the value stored there */
+static int num_values(void) { return g_n; }
+static %(T)s suf_value(int i) { __CPROVER_assert(0 <= i && i < g_n, "value index inside the suffix"); return i == g_w ? g_vw : %(nondet)s(); }
+int g_last, g_visits; _Bool g_seen_w;
+static void v_Visit(int i, %(T)s val) {
+  __CPROVER_assert(i > g_last && i < g_n, "values are visited in increasing index order, inside the suffix");
+  __CPROVER_assert(val != 0, "only non-zero values are visited");
+  if (i == g_w) { __CPROVER_assert(val == g_vw || (val != val && g_vw != g_vw), "the value visited is the stored value"); g_seen_w = 1; }
+  g_last = i; g_visits++; }
+'''
+
+
+def h_visit_values(T):
+    parts = [VISIT % dict(T=T, nondet='nondet_' + T),
+             Fn(SUFH, r'void VisitValues\(Visitor &v\) const \{\s*for \(int i = 0, n = num_values\(\)', 'void VisitValues(void)',
+                contract='__CPROVER_requires(g_last == -1 && g_visits == 0 && !g_seen_w && g_n >= 0) '
+                         '__CPROVER_ensures((0 <= g_w && g_w < g_n && g_vw != 0) ==> g_seen_w) __CPROVER_ensures(g_visits <= g_n) '
+                         '__CPROVER_assigns(g_last, g_visits, g_seen_w)',
+                subst=[(r'this->value\(', 'suf_value(', 1), (r'\bT value\b', '%s value' % T, 1), (r'\bv\.Visit\(', 'v_Visit(', 1)],
+                loops={0: '__CPROVER_assigns(i, g_last, g_visits, g_seen_w) __CPROVER_loop_invariant(0 <= i && i <= n && n == g_n && g_last < i && g_visits <= i && '
+                          '((0 <= g_w && g_w < i && g_vw != 0) ==> g_seen_w)) __CPROVER_decreases(n - i)'},
+                label='mp::BasicSuffix<T>::VisitValues', inst='T=%s' % T, nmatches=1), '''
+void harness(void) { vp_one = 1; g_n = nondet_int(); g_w = nondet_int(); g_vw = %s(); g_last = -1; g_visits = 0; g_seen_w = 0; VisitValues(); VP_REACH("normal return"); }
+''' % ('nondet_' + T)]
+    return Harness('C05.VisitValues.' + T, 'C05', parts, enforce='VisitValues', loop_contracts=True, expect_loop_obligations=1, timeout=300,
+                   stubs=['Visitor::Visit (asserts order, non-zero, value)', 'BasicSuffix::value / num_values (arbitrary but fixed array via a witness index)'],
+                   note='every non-zero value is visited exactly in index order: the count (SuffixValueCounter) and the lines (SuffixValueWriter) agree')
+
+
+def h_counter():
+    parts = ['#include "mp_shim.h"\nint vp_one;\nint num_values_;\n',
+             Fn(SOLH, r'void Visit\(int, T\) \{ \+\+num_values_; \}', 'void SuffixValueCounter_Visit(int vp_i, double vp_v)',
+                contract='__CPROVER_requires(num_values_ < INT_MAX) __CPROVER_ensures(num_values_ == __CPROVER_old(num_values_) + 1) __CPROVER_assigns(num_values_)',
+                label='mp::internal::SuffixValueCounter::Visit', nmatches=1),
+             'void harness(void) { vp_one = 1; num_values_ = nondet_int(); SuffixValueCounter_Visit(nondet_int(), nondet_double()); VP_REACH("normal return"); }\n']
+    return Harness('C05.SuffixValueCounter.Visit', 'C05', parts, enforce='SuffixValueCounter_Visit')
+
+
 WRITABLE_HEADER = ('(0 <= sr->h.kind && sr->h.kind <= 15 && sr->h.n >= 0 && 2 <= sr->h.namelen && sr->h.namelen <= (1 << 20) && 0 <= sr->h.tablen && sr->h.tablen <= (1 << 24) && '
                    '(sr->h.tablen == 0 || (1 <= sr->tablines && sr->tablines <= sr->h.tablen + 1)))')
 
@@ -355,4 +504,4 @@ void harness(void) { VP_INIT; vp_mkpool(); SufRead SR;
 
 
 def harnesses():
-    return [h_main(), h_sufhead_accepts()]
+    return [h_main(), h_suffix_block(), h_value_writer(False), h_value_writer(True), h_visit_values('int'), h_visit_values('double'), h_counter(), h_sufhead_accepts()]
